@@ -7,6 +7,11 @@ import traceback
 
 from vlib import framework as fw
 
+if fw.REPO != "/repo":
+    # hand runs against a scratch copy of the repository (VERIF_REPO=<dir>): the copy shadows the
+    # installed package; registered commands never set it
+    sys.path.insert(0, fw.REPO)
+
 
 def main():
     ap = argparse.ArgumentParser()
